@@ -55,6 +55,8 @@ enum : unsigned
   REL = 4,   // operators <=, >, >= offered
   HASH = 8,  // a hash function object is offered
   LEX = 16,  // the documentation defines < as the lexicographic order of the components in key order
+  LEX_INFO = 64, // like LEX, but the lexicographic order is NOT promised by the property or the documentation
+                 // (raw_vector: undocumented operator<): a deviation is recorded as an information counter only
   HASH_ONLY = 32 // second pass with another hash object: the ==-checks were reported by the first pass
 };
 
@@ -160,6 +162,11 @@ void check_type(std::string const &family, std::string const &inst, universe<T> 
           vrt::fail(mk_sig(family, inst, "lt_compatible", A.tag, B.tag),
                     vrt::fmt("a==b:%d a<b:%d b<a:%d (exactly one expected): %s  vs  %s", (int)eq, (int)lt, (int)tl,
                              show(A).c_str(), show(B).c_str()));
+        if constexpr ((F & LEX_INFO) != 0)
+        {
+          if (lt != (A.key < B.key))
+            vrt::count("info:" + family + ":lt_lexicographic:" + inst);
+        }
         if constexpr ((F & LEX) != 0)
         {
           bool const want = A.key < B.key; // std::vector: lexicographic
